@@ -66,3 +66,32 @@ func MakeObjectSlice(n int) []Object {
 	MustBeOk(n)
 	return make([]Object, 0, n)
 }
+
+// MustFitExpanded checks, like MustBeOk, that the values can be written out in full: a container referenced
+// from many places counts as many times (that is how it is printed or converted), so a small value can stand
+// for a huge text. Meant for the functions that format whole values outside of the evaluator (sprintf, json).
+func MustFitExpanded(objs ...Object) {
+	n := 0
+	var walk func(o Object)
+	walk = func(o Object) {
+		n++
+		if n%(1<<16) == 0 {
+			MustBeOk(n)
+		}
+		switch v := Value(o).(type) {
+		case Array:
+			for _, e := range v.Elements() {
+				walk(e)
+			}
+		case Map:
+			for _, kv := range v.mapElements() {
+				walk(kv.Key)
+				walk(kv.Value)
+			}
+		}
+	}
+	for _, o := range objs {
+		walk(o)
+	}
+	MustBeOk(n)
+}
